@@ -13,9 +13,14 @@ CLAIMED = {
         "text": "Proof: every obligation generated from the current source of _cpu_times_deltas, _cpu_tot_time, "
                 "_cpu_busy_time, cpu_percent.calculate and cpu_times_percent.calculate (for each kernel arity 7-10) "
                 "is discharged for all real-valued counter snapshots: clamped deltas, busy/total share in [0,100], "
-                "per-field shares adding up to 100 for any elapsed total however small.",
-        "note": "floats treated as reals; round(x,1) abstracted (|r-x|<=0.05, multiple of 0.1); thread interleavings "
-                "not modelled; trusted: own VC generator, cvc5, z3.",
+                "per-field shares adding up to 100 for any elapsed total however small. Process.cpu_percent (blocking "
+                "and non-blocking, first call 0.0, state update, ValueError). The system-wide cpu_percent() / "
+                "cpu_times_percent() front ends: the value is calculate(own previous sample | fresh | pre-sleep sample, "
+                "newest sample) with calculate a ghost function pinned by its own contract, the calling thread's newest "
+                "sample is stored and no other thread's entry is touched. /proc/stat decoding by a bounded sweep.",
+        "note": "floats treated as reals; round(x,1) abstracted (|r-x|<=0.05, multiple of 0.1); threads only as the "
+                "per-thread frame (no interleavings); one recorded known finding (C07-subsecond-total); trusted: own VC "
+                "generator, cvc5, z3.",
         "ref": "DESIGN.md section 5 (C07)",
     },
 }
@@ -48,8 +53,9 @@ CLAIMED["C14"] = {
     "text": "Proof: file_flags_to_mode for every flag word (exact bit arithmetic on unbounded ints, no exception for any "
             "access mode), io_counters (line loop with invariant over the symbolic /proc/<pid>/io: six counters under "
             "the documented names, blank/malformed lines ignored, RuntimeError/ValueError cases) and num_fds, each "
-            "through the real wrap_exceptions decorator. open_files()' descriptor scan is covered by a bounded sweep "
-            "over generated descriptor tables (labelled bounded).",
+            "through the real wrap_exceptions decorator; table: no caching decorator / oneshot cache on the three "
+            "readers. open_files()' descriptor scan is covered by a bounded sweep over generated descriptor tables incl. "
+            "descriptors closing at readlink, at the fdinfo open and at the fdinfo read (labelled bounded).",
     "note": "io record grammar assumed; procfs environment model; O_* values of the running platform; bounded part "
             "never counted as proved.",
     "ref": "DESIGN.md section 5 (C14)",
@@ -92,18 +98,22 @@ CLAIMED["C02"] = {
 CLAIMED["C04"] = {
     "text": "Proof: psutil.pids (ascending permutation of the listing), psutil.pid_exists (negative -> False, 0 -> "
             "listing, never an exception), _psposix.pid_exists for ints of any size (incl. the OverflowError range), "
-            "_pslinux.pid_exists (thread IDs rejected through the Tgid line; loop invariant; fall-back to the listing). "
+            "_pslinux.pid_exists (thread IDs rejected through the Tgid line; loop invariant; fall-back to the listing), "
+            "_psbsd.pid_exists for the OpenBSD and NetBSD definitions (result == listed under that flavour's behaviour of "
+            "kill(pid, 0)). "
             "process_iter()'s cache algebra (same object while listed, gone dropped, recycled replaced, cache_clear, "
             "attrs keys, handles of live processes keep is_running()) is covered by an exhaustive bounded enumeration of "
             "process-table histories against a reference model (labelled bounded).",
-    "note": "sorted()/os.kill library models; two threads iterating not covered; one recorded known finding "
-            "(C04-reused-skip, pinned by an existing test).",
+    "note": "sorted()/os.kill library models; threads only as scripted interleavings (an iterator held open across "
+            "events, a verdict delivered during the drain loop); two recorded known findings (C04-reused-skip, pinned by "
+            "an existing test; C04-older-iterator-republishes, repair needs a redesign of the cache hand-over).",
     "ref": "DESIGN.md section 5 (C04)",
 }
 
 CLAIMED["C05"] = {
     "text": "parent() is proved for all inputs (lowest PID -> None; Process(ppid) unless that PID now belongs to a "
-            "younger process or vanished). children() (non-recursive) is proved for every pid->ppid snapshot (symbolic map "
+            "younger process or vanished; process_iter()'s cache modelled adversarially); the reuse guard "
+            "_raise_if_pid_reused returns only after checking the identity in that very call. children() (non-recursive) is proved for every pid->ppid snapshot (symbolic map "
             "with a ghost key sequence, loop invariant: the result is the fold 'listed pids whose recorded parent is this "
             "process, other than itself, still there and not a zombie when looked at, not older than the caller'). "
             "children()/children(recursive=True) are also checked by a bounded enumeration of "
@@ -211,10 +221,12 @@ CLAIMED["C19"] = {
             "cpu_count (<1 -> None), _pslinux.sensors_battery for 35 file-layout configurations (percent = now/full*100, "
             "capacity fallback, AC adapter vs status, seconds left = int(now/power*3600), UNLIMITED/UNKNOWN, None "
             "without battery), _pslinux.sensors_temperatures for flat / nested / mixed / unreadable / thermal-zone / "
-            "empty hardware trees (millidegrees scaled exactly once, unreadable sensors skipped) and boot_time (loop "
+            "empty hardware trees and trees with an unparsable threshold file (millidegrees scaled exactly once, unreadable "
+            "sensors skipped), sensors_fans, _pslinux.cpu_freq (sysfs definition, chosen by world among the conditional "
+            "definitions; numeric policy order; cpuinfo values only when there is one per CPU) and boot_time (loop "
             "invariant over /proc/stat).",
     "note": "hardware-tree layouts are a fixed family (the glob plumbing is concrete per layout, all values symbolic); "
-            "sensors_fans, cpu_stats, cpu_count_cores/logical parsers are not under contract yet.",
+            "cpu_stats, cpu_count_cores/logical parsers are not under contract.",
     "ref": "DESIGN.md section 5 (C19)",
 }
 
@@ -226,8 +238,11 @@ CLAIMED["C20"] = {
             "errors pass through with class and errno unchanged, with the one documented PID-0 exception on BSD/SunOS; "
             "accessors of BSD/macOS/Windows return the documented tuple class filled from the matching record slots "
             "(pairwise distinct symbolic slots; Windows memory record incl. its permission-error fallback); the front-end "
-            "net_if_addrs under WINDOWS=True/False (computed broadcast takes effect, MAC padding). Table obligations: "
-            "gids()/uids() tuple classes in all five modules, FreeBSD C producer slot order and uid/gid field binding.",
+            "net_if_addrs under WINDOWS=True/False (each row's own computed broadcast takes effect, MAC padding); "
+            "_psbsd.is_zombie per flavour; Process.exe on NetBSD through the generator-based /proc wrapper. Table "
+            "obligations: gids()/uids() tuple classes in all five modules, FreeBSD C producer slot order and uid/gid "
+            "field binding, the RLIM* export block executed against every name the C source registers, every optional "
+            "function x platform pair docs/index.rst documents.",
     "note": "native layers themselves are outside reach; accessor coverage is a subset of each platform's methods; "
             "__all__/documentation availability not checked.",
     "ref": "DESIGN.md section 5 (C20)",
@@ -242,7 +257,8 @@ CLAIMED["C18"] = {
             "unpack(pack(c,d)) == (c,d); psutil_proc_cpu_affinity_get: the cpu set is doubled without overflow until the "
             "kernel accepts it, every access stays inside the allocation of the current (symbolic) size, it is freed "
             "exactly once on every path, and by a ghost popcount invariant (count == number of set bits from cpu on) "
-            "every CPU reported has its bit set and the scan stops only when none is left. Proof, Python layer: _pslinux ionice_set/ionice_get/nice_get/nice_set/rlimit/"
+            "every CPU reported has its bit set, the count is taken over the size the kernel filled and the scan stops only "
+            "when none is left. Proof, Python layer: _pslinux ionice_set/ionice_get/nice_get/nice_set/rlimit/"
             "cpu_affinity_set (validation before any native call, exact pass-through, EINVAL/ValueError diagnosis over "
             "request lists of any length by loop invariant) and the front-end nice/ionice/rlimit/cpu_affinity argument "
             "rules (level without class, [] = eligible CPUs, de-duplication).",
@@ -262,7 +278,7 @@ CLAIMED["C17"] = {
             "buf[NI_MAXHOST], loop invariant ptr = buf+3n), net_if_mtu/is_running/duplex_speed (bounded ifr_name copy, no "
             "signed overflow combining the speed words, speed in [0, INT_MAX]), proc_cpu_affinity_set (every item an error "
             "or a store inside cpu_set_t), ioprio_get/set, getpriority/setpriority, check_pid_range, pid_exists, "
-            "set_debug, getpagesize, linux_sysinfo, append_flag, net_if_flags (path merging): no signed overflow, shift UB, out-of-bounds access or "
+            "set_debug, getpagesize, linux_sysinfo, append_flag, net_if_flags (path merging; call-site obligation: a flag name is reported only where flags & IFF_<NAME> is set, plus a completeness table): no signed overflow, shift UB, out-of-bounds access or "
             "ownership error for any argument; NULL iff an exception is set; psutil_net_if_addrs (getifaddrs list walk: "
             "tuple slots per node - name, family, address, netmask, broadcast only under IFF_BROADCAST, ptp only under "
             "IFF_POINTOPOINT - and reference ownership on every error path, psutil_convert_ipaddr applied through its own "
